@@ -40,6 +40,12 @@ import (
 	"github.com/projectcalico/calico/verifkit/ev"
 )
 
+// c17KnownRescanDropped is the signature of a finding on the unchanged tree (see final report):
+// RouteTable.resyncIface returns nil when listing an interface's routes fails, so
+// resyncIndividualInterfaces drops the interface from the rescan set and Apply reports success
+// without having looked at the interface.
+const c17KnownRescanDropped = "c17-iface-rescan-dropped-after-route-list-failure"
+
 type c17NoopRecorder struct{}
 
 func (c17NoopRecorder) RecordOperation(string) {}
@@ -148,6 +154,8 @@ type c17H struct {
 	resyncRequested    bool     // QueueResync (or a new RouteTable) since the last such edit
 	faultsSinceGood    int
 	sawConflict        bool
+	suspectRescanDrop  bool
+	rec                *ev.Recorder
 
 	ops        []string
 	classes    map[string]bool
@@ -227,6 +235,9 @@ func (h *c17H) desiredDump() string {
 }
 
 func (h *c17H) fail(format string, a ...any) {
+	if h.suspectRescanDrop {
+		format = "[" + c17KnownRescanDropped + ": a route listing failed during a per-interface rescan in an Apply that nevertheless returned nil] " + format
+	}
 	h.t.Fatalf("%s\nconfig: %+v\nops=%v\ndesired:%s\nkernel routes:%s", fmt.Sprintf(format, a...), h.cfg, h.ops, h.desiredDump(), h.kernelDump())
 }
 
@@ -430,8 +441,20 @@ func (h *c17H) apply() error {
 		}
 	}
 	armed := h.dp.FailuresToSimulate&mocknetlink.FailNextLinkByNameNotFound != 0
+	listFaultArmed := h.dp.FailuresToSimulate&mocknetlink.FailNextRouteList != 0
+	fullResyncPending := h.resyncRequested
 	err := h.rt.Apply()
 	h.checkMock()
+	if listFaultArmed && h.dp.FailuresToSimulate&mocknetlink.FailNextRouteList == 0 && err == nil && !fullResyncPending {
+		// The failed listing can only have been a per-interface rescan.
+		if ev.Known(c17KnownRescanDropped) {
+			h.rec.Excluded(c17KnownRescanDropped)
+			h.extDirty = true
+			h.resyncRequested = false
+		} else {
+			h.suspectRescanDrop = true
+		}
+	}
 	if armed && h.dp.FailuresToSimulate&mocknetlink.FailNextLinkByNameNotFound == 0 {
 		// "Link not found" is not a failure but false information (the interface is reported
 		// gone); Felix rightly believes it until a later full resync re-lists the links.
@@ -573,7 +596,7 @@ func TestVerifC17RouteSync(t *testing.T) {
 	defer rec.Write()
 	rapid.Check(t, func(t *rapid.T) {
 		c17TakeMockFailures()
-		h := &c17H{t: t, classes: map[string]bool{}, nextIdx: 10}
+		h := &c17H{t: t, classes: map[string]bool{}, nextIdx: 10, rec: rec}
 		h.cfg = c17Cfg{
 			devProto:       rapid.SampledFrom([]netlink.RouteProtocol{unix.RTPROT_BOOT, unix.RTPROT_BOOT, 80}).Draw(t, "deviceRouteProtocol"),
 			removeExternal: rapid.Bool().Draw(t, "removeExternalRoutes"),
@@ -892,4 +915,46 @@ func TestVerifC17RouteSync(t *testing.T) {
 				"final_routes": strings.Split(h.kernelDump(), "\n"), "final_desired": strings.Split(h.desiredDump(), "\n")}
 		}, cls...)
 	})
+}
+
+// TestVerifC17KnownRescanDropped is the deterministic confirmation of finding
+// c17KnownRescanDropped (it FAILS while the finding reproduces).
+func TestVerifC17KnownRescanDropped(t *testing.T) {
+	ev.Quiet()
+	c17HookGomega()
+	dp := mocknetlink.New()
+	tm := mocktime.New()
+	pol := ownershippol.NewMainTable(c17VXLANIface, unix.RTPROT_BOOT, []string{"cali"}, false, false)
+	rt := routetable.New(pol, 4, 10*time.Second, nil, unix.RTPROT_BOOT, false, unix.RT_TABLE_MAIN, c17NoopRecorder{}, dp,
+		routetable.WithConntrackCleanup(false), routetable.WithTimeShim(tm), routetable.WithNetlinkHandleShim(dp.NewMockNetlink))
+	dp.AddIface(11, "cali1", true, true)
+	rt.OnIfaceStateChanged("cali1", 11, ifacemonitor.StateUp)
+	tg := routetable.Target{RouteKey: routetable.RouteKey{CIDR: ip.MustParseCIDROrIP("10.0.0.1/32")}}
+	rt.SetRoutes(routetable.RouteClassLocalWorkload, "cali1", []routetable.Target{tg})
+	if err := rt.Apply(); err != nil {
+		t.Fatalf("set-up Apply failed: %v", err)
+	}
+	key := mocknetlink.KeyForRoute(&netlink.Route{Table: unix.RT_TABLE_MAIN, Dst: c17MustCIDR("10.0.0.1/32")})
+	if _, ok := dp.RouteKeyToRoute[key]; !ok {
+		t.Fatalf("set-up: route not programmed")
+	}
+	// The link bounces: the kernel drops the route; both events reach Felix.
+	delete(dp.RouteKeyToRoute, key)
+	rt.OnIfaceStateChanged("cali1", 11, ifacemonitor.StateDown)
+	rt.OnIfaceStateChanged("cali1", 11, ifacemonitor.StateUp)
+	// The next route listing (the rescan of cali1) fails once.
+	dp.FailuresToSimulate = mocknetlink.FailNextRouteList
+	err := rt.Apply()
+	if f := c17TakeMockFailures(); len(f) > 0 {
+		t.Skipf("HARNESS-GAP: mock assertion failed: %v", f)
+	}
+	if err != nil {
+		return // Apply reported the failure, the caller will retry: the finding no longer reproduces
+	}
+	if _, ok := dp.RouteKeyToRoute[key]; !ok {
+		err2 := rt.Apply()
+		_, ok2 := dp.RouteKeyToRoute[key]
+		t.Fatalf("%s: Apply returned nil although the rescan of cali1 failed; desired route 10.0.0.1/32 is missing from the kernel (a second Apply returned %v, route present afterwards: %v)",
+			c17KnownRescanDropped, err2, ok2)
+	}
 }
